@@ -136,7 +136,8 @@ type UFDecl struct {
 }
 
 type Factory struct {
-	tab  map[string]*T
+	htab map[uint64][]*T
+	tt, ff *T
 	n    int
 	UFs  map[string]*UFDecl
 	Vars map[string]*T
@@ -144,7 +145,7 @@ type Factory struct {
 }
 
 func NewFactory() *Factory {
-	return &Factory{tab: map[string]*T{}, UFs: map[string]*UFDecl{}, Vars: map[string]*T{}, fresh: map[string]int{}}
+	return &Factory{htab: map[uint64][]*T{}, UFs: map[string]*UFDecl{}, Vars: map[string]*T{}, fresh: map[string]int{}}
 }
 
 func (f *Factory) NumTerms() int { return f.n }
@@ -156,31 +157,50 @@ func mask(w int) uint64 {
 	return (uint64(1) << uint(w)) - 1
 }
 
-func (f *Factory) intern(t *T) *T {
-	var sb strings.Builder
-	sb.WriteString(strconv.Itoa(int(t.Op)))
-	sb.WriteByte('|')
-	sb.WriteString(strconv.Itoa(int(t.S.K)))
-	sb.WriteByte('.')
-	sb.WriteString(strconv.Itoa(t.S.W))
-	sb.WriteByte('|')
+func hashTerm(t *T) uint64 {
+	h := uint64(1469598103934665603)
+	mix := func(x uint64) {
+		h ^= x
+		h *= 1099511628211
+	}
+	mix(uint64(t.Op))
+	mix(uint64(t.S.K)<<32 | uint64(t.S.W))
 	for _, a := range t.A {
-		sb.WriteString(strconv.Itoa(a.ID))
-		sb.WriteByte(',')
+		mix(uint64(a.ID))
 	}
-	sb.WriteByte('|')
-	sb.WriteString(t.Name)
-	sb.WriteByte('|')
-	sb.WriteString(strconv.FormatUint(t.V, 16))
-	sb.WriteByte('|')
-	sb.WriteString(strconv.FormatInt(t.I, 10))
+	mix(uint64(len(t.A)))
+	for i := 0; i < len(t.Name); i++ {
+		mix(uint64(t.Name[i]))
+	}
+	mix(t.V)
+	mix(uint64(t.I))
 	if t.S.K == KF64 || t.S.K == KF32 {
-		sb.WriteByte('|')
-		sb.WriteString(strconv.FormatUint(math.Float64bits(t.F), 16))
+		mix(math.Float64bits(t.F))
 	}
-	k := sb.String()
-	if o, ok := f.tab[k]; ok {
-		return o
+	return h
+}
+
+func sameTerm(a, b *T) bool {
+	if a.Op != b.Op || a.S != b.S || len(a.A) != len(b.A) || a.Name != b.Name || a.V != b.V || a.I != b.I {
+		return false
+	}
+	for i := range a.A {
+		if a.A[i] != b.A[i] {
+			return false
+		}
+	}
+	if a.S.K == KF64 || a.S.K == KF32 {
+		return math.Float64bits(a.F) == math.Float64bits(b.F)
+	}
+	return true
+}
+
+func (f *Factory) intern(t *T) *T {
+	h := hashTerm(t)
+	for _, o := range f.htab[h] {
+		if sameTerm(o, t) {
+			return o
+		}
 	}
 	f.n++
 	t.ID = f.n
@@ -191,14 +211,24 @@ func (f *Factory) intern(t *T) *T {
 			t.size = 1 << 30
 		}
 	}
-	f.tab[k] = t
+	f.htab[h] = append(f.htab[h], t)
 	return t
 }
 
 // ---- constants and variables
 
-func (f *Factory) True() *T  { return f.intern(&T{Op: OConst, S: Bool, V: 1}) }
-func (f *Factory) False() *T { return f.intern(&T{Op: OConst, S: Bool, V: 0}) }
+func (f *Factory) True() *T {
+	if f.tt == nil {
+		f.tt = f.intern(&T{Op: OConst, S: Bool, V: 1})
+	}
+	return f.tt
+}
+func (f *Factory) False() *T {
+	if f.ff == nil {
+		f.ff = f.intern(&T{Op: OConst, S: Bool, V: 0})
+	}
+	return f.ff
+}
 func (f *Factory) BoolC(b bool) *T {
 	if b {
 		return f.True()
